@@ -62,6 +62,8 @@ def units(tier):
         for a0 in (-64, -32, 0, 33):
             us.append({"kind": "rot", "group": g, "from": a0, "to": min(a0 + 32, 65) if a0 < 33 else 65})
     us.append({"kind": "rotextra"})
+    us.append({"kind": "scale-xor"})
+    us.append({"kind": "scale-rot"})
     for name in ("xor/90", "xor/0102", "xor/010203", "xor/800000007f", "xor/0102030405060708", "rot/3/1", "rot/8/2", "rot/5/2", "rot/12/3", "rot/-3/1", "bitsswapped"):
         us.append({"kind": "placed", "name": name})
     us.append({"kind": "swap"})
@@ -234,6 +236,46 @@ def run_unit(unit, tier):
     r = UnitResult()
     k = unit["kind"]
     L = INFO["bounds"][tier]["data_len"]
+    if k == "scale-xor":
+        from .. import scale
+        keys = [0x5a, b"\x01\x02", b"\x01\x02\x03", bytes(range(1, 6)), bytes(range(1, 8)), bytes(range(3, 13)), bytes(range(1, 18)), bytes(range(1, 65)), bytes(range(1, 81)),
+                bytes(range(1, 256)), bytes(range(256)) + b"\x01"]
+        for n in scale.sizes(tier):
+            for kind in ("ramp", "ff"):
+                data = scale.payload(n, kind)
+                for key in keys:
+                    r.states += 1
+                    xor_case(key, data, r)
+                    if kind == "ramp" and isinstance(key, bytes) and len(key) in (3, 7):
+                        xor_case(key, data, r, via_ctx=True)
+        r.sample({"scale": "xor", "sizes": scale.sizes(tier), "key_lengths": [1, 2, 3, 5, 7, 10, 17, 64, 80, 255, 257]})
+        return r
+    if k == "scale-rot":
+        from .. import scale
+        for n in scale.sizes(tier):
+            for a, g in ((3, 1), (8, 2), (5, 2), (12, 3), (24, 4), (1, 8), (-7, 5), (63, 8)):
+                data = scale.payload(n - n % g, "ramp")
+                r.states += 1
+                rot_case(a, g, data, r)
+            r.states += 1
+            rot_case(3, 2, scale.payload(n | 1, "ramp"), r)        # odd length, group 2: must be refused
+            for nm in ("bitsswapped",):
+                placed_case(nm, scale.payload(n, "ramp")[:255], 3, r)
+            # swapped transforms on long data
+            import construct as C
+            data = scale.payload(n, "ramp")
+            got = tryex(lambda: bytes(C.BitsSwapped(C.GreedyBytes).parse(data)))
+            r.case(nontrivial=True, outcome="ok", validated=1)
+            if got != ("ok", ref_bitrev(data)):
+                r.violation("C15/swap/bits-long", {"t": "swaplong", "n": n}, "BitsSwapped(GreedyBytes) on %d bytes differs from the bit reversal of every byte" % n)
+            got = tryex(lambda: bytes(C.ByteSwapped(C.Bytes(n)).parse(data)))
+            if got != ("ok", data[::-1]):
+                r.violation("C15/swap/bytes-long", {"t": "swaplong", "n": n}, "ByteSwapped(Bytes(%d)) differs from the reversed data" % n)
+            got = tryex(lambda: C.ByteSwapped(C.Bytes(n)).build(data))
+            if got != ("ok", data[::-1]):
+                r.violation("C15/swap/bytes-long", {"t": "swaplong", "n": n}, "ByteSwapped(Bytes(%d)).build differs from the reversed data" % n)
+        r.sample({"scale": "rot/swap", "sizes": scale.sizes(tier)})
+        return r
     if k == "placed":
         datas = sigma(min(L, 4) - 1) + ramps(12)
         for hdr in range(0, 9):
@@ -436,6 +478,8 @@ def replay(case):
     t = case["t"]
     if t == "xor":
         return xor_case(case["key"], case["data"], None, case.get("ctx", False))
+    if t == "swaplong":
+        return run_unit({"kind": "scale-rot"}, "quick").violations
     if t == "placed":
         return placed_case(case["name"], case["data"], case["hdr"])
     if t == "rot":
